@@ -64,7 +64,7 @@ def run_replay(ob, pid, tier):
     safe = ob.oid.replace("/", "_").replace("#", "-").replace("~", "-")
     path = os.path.join(VERIF, "replays", f"{pid}-{safe}.json")
     rec = dict(property=pid, obligation=ob.oid, kind=ob.kind, function=ob.fn, backend=ob.backend, model=ob.model,
-               replay=({k: v for k, v in ob.replay.items() if k not in ("vars", "funcs")} if ob.replay else None),
+               replay=({k: v for k, v in ob.replay.items() if k not in ("vars", "funcs", "arrays")} if ob.replay else None),
                verifier_output=ob.solver_output[:4000], repo=REPO, reproduced=None, observed=None)
     with open(path, "w") as fh:
         json.dump(rec, fh, indent=1, default=str)
@@ -83,6 +83,16 @@ def run_replay(ob, pid, tier):
         return path, rec.get("reproduced"), rec.get("observed")
     except subprocess.TimeoutExpired:
         return path, None, "replay timeout"
+
+
+def write_replay_stub(ob, pid):
+    os.makedirs(os.path.join(VERIF, "replays"), exist_ok=True)
+    safe = ob.oid.replace("/", "_").replace("#", "-").replace("~", "-")
+    path = os.path.join(VERIF, "replays", f"{pid}-{safe}.json")
+    with open(path, "w") as fh:
+        json.dump(dict(property=pid, obligation=ob.oid, kind=ob.kind, function=ob.fn, backend=ob.backend, model=ob.model,
+                       verifier_output=(ob.solver_output or "")[:4000], repo=REPO, reproduced=None, observed="not replayed"), fh, indent=1, default=str)
+    return path
 
 
 def bounded_standins(pid, tier, seed):
@@ -163,12 +173,25 @@ def main(argv=None):
             if ob.oid in known_by_ob:
                 known_hits.append((ob, known_by_ob[ob.oid][0]))
                 continue
-            path, reproduced, observed = run_replay(ob, pid, tier)
-            violations.append((ob, path, reproduced, observed))
+            violations.append([ob, None, None, None])
         elif ob.status == "unknown":
             undecided.append(ob)
         elif ob.status in ("vacuous", "control_failed"):
             checker_errors.append(ob)
+    # replay: at most MAX_REPLAY counter-models are concretised and run on the real code (one JAX process each); the
+    # remaining refuted obligations are listed under the same VIOLATION report
+    MAX_REPLAY = 3
+    violations.sort(key=lambda v: (0 if v[0].kind.startswith("post") or v[0].kind.startswith("inv") else 1, v[0].oid))
+    grid_cache = {}
+    for v in violations[:MAX_REPLAY]:
+        ob = v[0]
+        gkey = (ob.replay or {}).get("kind"), (ob.replay or {}).get("cls")
+        os.environ["FJVC_REPLAY_SKIP_GRID"] = "1" if gkey in grid_cache and grid_cache[gkey] is False else "0"
+        v[1], v[2], v[3] = run_replay(ob, pid, tier)
+        if v[2] is False:
+            grid_cache[gkey] = False
+    for v in violations[MAX_REPLAY:]:
+        v[1], v[2], v[3] = write_replay_stub(v[0], pid), None, "not replayed (replay budget of this run used by the first violations)"
     for name, kind, msg in fam_errors:
         if kind == "error":
             checker_errors.append(core.Obligation(f"{pid}/<family {name}>", [pid], "family", [], None, note=msg, status="family_error"))
@@ -183,7 +206,7 @@ def main(argv=None):
     # L3 bounded stand-ins / conformance (also the fallback for undecided obligations)
     if args.no_l3:
         l3 = dict(ran=False, reason="disabled")
-    elif violations and all(v[2] for v in violations):
+    elif violations and any(v[2] for v in violations):
         l3 = dict(ran=False, reason="skipped: the deductive layer already reported replayed violations")
     else:
         l3 = bounded_standins(pid, tier, seed)
@@ -205,11 +228,13 @@ def main(argv=None):
     exit_code = 0
     for ob, kf in known_hits:
         print(f"KNOWN-FINDING: property={pid} {kf.get('what', kf.get('obligation'))}")
-    for ob, path, reproduced, observed in violations:
+    for ob, path, reproduced, observed in violations[:MAX_REPLAY]:
         tail = "" if reproduced else " no-failing-input-found"
         print(f"VIOLATION property={pid} replay={path}{tail}")
         print(f"  obligation {ob.oid} ({ob.kind}) of {ob.fn} failed: {('replayed on the real code: ' + str(observed)[:300]) if reproduced else ('not reproduced: ' + str(observed)[:200])}")
         exit_code = 1
+    if len(violations) > MAX_REPLAY:
+        print(f"  also failed ({len(violations) - MAX_REPLAY} more obligations, replay files written): " + ", ".join(v[0].oid for v in violations[MAX_REPLAY:MAX_REPLAY + 12]) + (" ..." if len(violations) > MAX_REPLAY + 12 else ""))
     for v in l3_viol:
         print(f"VIOLATION property={pid} replay={v['replay']}")
         print(f"  bounded run-time contract check failed on the real code: {v.get('what', '')[:300]}")
